@@ -227,6 +227,33 @@ def run(ctx):
                      f"verifier does not compare {cname}.{a}; no generator gap feeds it today (IR field parsed and rendered: R4/R5), so nothing is lost",
                      val.functions["_collect"].node, nontrivial=False)
                 c.note(f"C17.R4 verifier blind spot (unarmed, no generator gap today): {cname}.{a}")
+    # ---- R8 invoke handler lists are rendered completely -------------------------------------------
+    # The engine keeps every onDone / onError candidate of an invoke (StateNode._parse_invoke maps the whole
+    # list); a renderer on that path must not pick one element of the sequence.
+    emit = p.module("cli.emit")
+    ri = emit.functions.get("render_invoke")
+    c.need(ri, "cli.emit.render_invoke")
+    clo = res.closure([ri], None, include_closures=True)
+    n8 = 0
+    for q, (f, par) in sorted(clo.items()):
+        if not f.module.name.startswith("cli"):
+            continue
+        seq_params = {a.arg for a in f.node.args.args if a.annotation is not None and "TransitionIR" in norm(a.annotation)
+                      and any(t in norm(a.annotation) for t in ("Sequence", "Tuple", "List"))}
+        for x in own_nodes(f.node):
+            if isinstance(x, ast.Subscript) and isinstance(x.ctx, ast.Load) and isinstance(x.slice, ast.Constant) and isinstance(x.slice.value, int):
+                base = x.value
+                is_seq = (isinstance(base, ast.Name) and base.id in seq_params) or (isinstance(base, ast.Attribute) and base.attr in ("on_done", "on_error"))
+                if not is_seq:
+                    continue
+                n8 += 1
+                single = any("len(" in norm(a) and norm(base) in norm(a) and ("== 1" in norm(a)) and pol for a, pol in guards_at(f, x))
+                c.ob("R8", single, f, f"handler-list-indexed:{norm(base)}",
+                     "a single element is picked only when the list has exactly one" if single else
+                     f"'{stmt_text(x)}' renders one element of an invoke handler list without a 'len(...) == 1' guard: the engine evaluates every "
+                     f"onDone/onError candidate of an invoke, so guarded candidates plus a fallback lose the fallback in generated code "
+                     f"(and the verifier compares invokes by src only)", x)
+    c.ob("R8", True, ri, "invoke-render-closure", f"{len(clo)} functions on the invoke render path, {n8} constant-index picks examined", ri.node, nontrivial=False)
     # ---- R5 vocabulary agreement ------------------------------------------------------------------
     eng_guard = _config_keys_read([p.cls("GuardDefinition").methods["__init__"]])
     ir_guard = _config_keys_read([ir.functions["parse_guard"]])
